@@ -4,4 +4,4 @@
 From Coq Require Import Extraction ExtrOcamlBasic.
 From Syz Require Import Wire.
 Extraction Language OCaml.
-Extraction "oracle_model.ml" oracle_main3.
+Extraction "oracle_model.ml" oracle_main4.
